@@ -47,6 +47,16 @@ def benign_table():
     return '\n'.join(out)
 
 
+def thorough_table(evdir):
+    out = ['| property | verdict | configurations | judged library calls | distinct non-trivial inputs (capped) | arms | wall (s, machine shared with other jobs) |', '|---|---|---|---|---|---|---|']
+    for f in sorted(glob.glob(os.path.join(evdir, 'C??.json'))):
+        e = json.load(open(f))
+        c = e['coverage']
+        v = c.get('verdict', '?') + (f" + {e['known_findings_observed']} known finding(s)" if e.get('known_findings_observed') else '')
+        out.append(f"| {e['property_id']} | {v} | {len(c.get('configurations', []))} | {c['evaluations']:.3e} | {c['distinct_nontrivial']} | {', '.join(c.get('arms', []))} | {e['wall_s']} |")
+    return '\n'.join(out)
+
+
 def mutant_table():
     mr = os.path.join(V, 'notes', 'mutants_result.json')
     out = ['| mutant | targets | outcome |', '|---|---|---|']
@@ -83,6 +93,8 @@ if __name__ == '__main__':
         print(seed_table() + '\n')
     if which in ('all', 'history'):
         print(history_table() + '\n')
+    if which == 'thorough':
+        print(thorough_table(sys.argv[2]))
     if which in ('all', 'benign'):
         print(benign_table() + '\n')
     if which in ('all', 'mutants'):
